@@ -200,7 +200,9 @@ def ob_override():
         DF.dependencies = types.SimpleNamespace(find_external_dependency=find_external_dependency, get_dep_identifier=dependencies.get_dep_identifier)
         df = DF.DependencyFallbacksHolder(interp, ['foo'], MachineChoice.HOST)
         try:
-            dep = df.lookup({'required': required, 'native': MachineChoice.HOST, 'version': [vop + want]})
+            # keyword arguments that do NOT select a different dependency (include_type, version, required ...) must not hide the override
+            extra = [{}, {'include_type': 'system'}, {'include_type': 'non-system'}, {'include_type': 'preserve'}, {'not_found_message': 'x'}, {'disabler': False}][choose(6, 'extra_kwarg')]
+            dep = df.lookup(dict({'required': required, 'native': MachineChoice.HOST, 'version': [vop + want]}, **extra))
             res = dep.label if dep.found() else 'notfound'
         except DependencyException:
             res = 'error'
